@@ -34,7 +34,8 @@ class C15(Prop):
     rule = ("connected motifs: random connected graphs on 2-6 vertices (7 in thorough) with arbitrary labels, cliques to K6, cycles to C9, "
             "diamonds, chorded pentagons; every case fixes a root; the real evaluator runs on exact polynomial arguments (p and one variable "
             "per vertex) and is compared coefficient by coefficient with the model and with a brute-force expectation over all 2^|E| "
-            "open-edge sets; 25% of cases are call sequences on ONE shared evaluator (distinct names, repeated motifs, different roots); "
+            "open-edge sets; numeric points with exact 0 / 1 values, a phi sweep 1, 3/4, 0, 1/2, 1, 1/4 on one evaluator and the same motif with other "
+            "neighbour values on one evaluator; 25% of cases are call sequences on ONE shared evaluator (distinct names, repeated motifs, different roots); "
             "non-trivial = motif with a cycle or at least 4 vertices; distinct = distinct (graph, root)")
     assumptions = ["networkx neighbors/copy/remove_edges_from/remove_nodes_from/is_connected set-level semantics (re-defined in Model/Graph.lean)",
                    "distinct motifs evaluated on one evaluator carry distinct names (the property's own proviso)"]
